@@ -271,7 +271,7 @@ def shard(ctx):
                 data = wrap % ((c, c) if wrap.count("%s") == 2 else c)
                 run_input(ctx, data, ctx.rng("constructs", k), True)
                 ctx.count("construct_inputs")
-    for qi, q in enumerate(gen.token_sequences(ctx, 2, 3, 0.3, suffix="x\r\ny")):
+    for qi, q in enumerate(gen.token_sequences(ctx, 2, 3, 0.5, suffix="x\r\ny")):
         run_input(ctx, q, ctx.rng("seq", qi), False)
         ctx.count("sequence_inputs")
     n, idx = 0, ctx.i
